@@ -289,7 +289,7 @@ func VerifC27_cleanOwnership() {
 func VerifC27_staleClaims() {
 	var in *verifBalIn
 	if verifThorough() {
-		in = verifBalShape(2, 3, []int{2, 2}, false, false, true)
+		in = verifBalShape(2, 3, []int{2, 1}, false, false, true)
 	} else {
 		in = verifBalShapeN(2, 2, []int{1, 1}, []int{2, 1}, false, false, true)
 	}
@@ -366,7 +366,7 @@ func VerifC27_intendedPlanLiteral() {
 func VerifC27_arbitraryTwoMembers() {
 	var in *verifBalIn
 	if verifThorough() {
-		in = verifBalShape(1, 2, []int{2, 2}, true, false, false)
+		in = verifBalShape(1, 2, []int{2, 2}, false, false, true)
 	} else {
 		in = verifBalShape(2, 2, []int{1, 1}, false, false, true)
 	}
@@ -379,13 +379,17 @@ func VerifC27_arbitraryTwoMembers() {
 // int32 generations (AdjustCooperative only compares them).
 func VerifC27_symbolicGenerations() {
 	var in *verifBalIn
-	if verifThorough() {
-		in = verifBalShape(2, 3, []int{2, 1}, false, false, true)
+	if verifThorough() && verifBalPick(2) == 0 {
+		in = verifBalShape(2, 2, []int{2, 1}, false, false, true)
 	} else {
-		in = verifBalShapeN(2, 2, []int{1, 1}, []int{1, 1}, false, false, true)
-	}
-	if !verifThorough() && len(in.subs[0]) < 2 {
-		return // quick: m0 subscribes to both topics
+		m := 2
+		if verifThorough() {
+			m = 3
+		}
+		in = verifBalShapeN(m, m, []int{1, 1}, []int{1, 1}, false, false, true)
+		if len(in.subs[0]) < 2 {
+			return // m0 subscribes to both topics
+		}
 	}
 	in.symGens = true
 	in.verifBalOwnerClaims(true)
